@@ -7,7 +7,7 @@ import numpy as np
 from .. import model as M
 from .. import twins as TW
 from .. import twinlib as T
-from ..common import rats, nats
+from ..common import rat, rats, nats
 from . import base
 from .base import replay as _replay
 from .theorems import THEOREMS as _T
@@ -45,6 +45,29 @@ def model_vs_impl(ctx, n):
         ev = default_evaluator(arms, np.asarray(dec), np.asarray(rew, dtype=float), pred, ats, "mean", 0, False)
         lines.append("sim eval arms=%s d=%s r=%s p=%s t=%s" % (nats(arms), nats(dec), rats(rew), nats(pred), rats(train)))
         checks.append(("eval", (arms, dec, rew, pred, train), ev))
+        # evaluator, neighbourhood branch: one record of per-arm statistics per test row (empty record, or an arm without
+        # neighbours, falls back to the training statistic)
+        nrows, enc = [], []
+        for _ in range(m):
+            if rng.random() < 0.2:
+                nrows.append({})
+                enc.append("e")
+            else:
+                row, parts = {}, []
+                for a in arms:
+                    if rng.random() < 0.3:
+                        row[a] = {}
+                        parts.append("-")
+                    else:
+                        v = rng.choice([0, 0, 0.5, 1, 2, -1, 1.75])
+                        row[a] = {"min": v, "mean": v, "max": v}
+                        parts.append(rat(v))
+                nrows.append(row)
+                enc.append(",".join(parts))
+        evn = default_evaluator(arms, np.asarray(dec), np.asarray(rew, dtype=float), pred, (ats, nrows), "mean", 0, True)
+        lines.append("sim evalnn arms=%s d=%s r=%s p=%s t=%s n=%s" % (nats(arms), nats(dec), rats(rew), nats(pred), rats(train),
+                                                                      ";".join(enc)))
+        checks.append(("evalnn", (arms, dec, rew, pred, train, enc), evn))
         # batches
         nb = rng.choice([1, 2, 3, 5, 7, 12])
         bb = rng.choice([1, 2, 3, 4, 5])
